@@ -90,10 +90,9 @@ pub fn decode(m: &TxStatusMessage) -> (u8, Option<u64>) {
 pub fn step<S: Src, const PRE: u8, const OP: u8, const ALT: bool>(s: &mut S) {
     let nonfinal_kind: u8 = if ALT { 2 } else { 0 };
     let preconf_kind: u8 = if ALT { 2 } else { 1 };
-    // final statuses held in the buffer are squeeze-outs: Success/Failure carry an
-    // `Arc<Vec<Receipt>>` whose (dead) destructor exhausted 10 GB whenever the
-    // two-status state was involved; they are still published as operations.
-    let final_kind: u8 = 5;
+    // Success/Failure carry an `Arc<Vec<Receipt>>`; the (dead) destructor loop over
+    // its receipts gets a per-loop unwinding limit in the driver (DESIGN §5 C22).
+    let final_kind: u8 = if ALT { 4 } else { 3 };
     let final_kind2: u8 = if ALT { 5 } else { 3 };
     // publication numbers, in publication order
     let a = s.u64();
